@@ -7,6 +7,7 @@
 //!   `topk <d|s> <k> | <items>`            `TopK::new(k)`
 //!   `topp <d|s> <pbits> | <items>`        `TopP::new(p).normalize(false)`
 //!   `sort <d|s> | <items>`                `Sort::new()`
+//!   `# toppn <d|s> <pbits> | <items>`     `TopP::new(p).normalize(true)` (oracle-only)
 //!   `chain <d|s> <spec,spec,…> | <items>` `Chain` (specs: k<k> p<pbits> s m<m>.<r> g<c> t<j>;
 //!                                         `e` = empty chain)
 //! A line starting with `# ` is not compared with the model: it either carries a PROPFAIL
@@ -293,6 +294,65 @@ fn oracle_topp_weak(input: &[Item], out: &[Item]) -> Option<String> {
     None
 }
 
+/// Oracle for softmax-normalised TopP (ids distinct).  f32 softmax vs f64 reference: the kept
+/// count must lie between the counts for thresholds `thr - eps` and `thr + eps`.
+fn oracle_toppn(pbits: u32, input: &[Item], out: &[Item]) -> Option<String> {
+    if !input.is_empty() && out.is_empty() {
+        return Some("topp:empty output for non-empty input".into());
+    }
+    if pbits == ONE {
+        return (out != input).then(|| "topp-norm:p=1 must return the input unchanged".to_string());
+    }
+    if input.is_empty() || !is_finite(pbits) || input.iter().any(|x| !is_finite(x.1)) {
+        return (out.len() > input.len()).then(|| "topp:more outputs than inputs".to_string());
+    }
+    let logit_of: HashMap<u32, f64> = input.iter().map(|x| (x.0, val64(x.1))).collect();
+    if out.iter().any(|x| !logit_of.contains_key(&x.0)) {
+        return Some("topp-norm:unknown id in output".into());
+    }
+    let mut ids: Vec<u32> = out.iter().map(|x| x.0).collect();
+    ids.sort();
+    if ids.windows(2).any(|w| w[0] == w[1]) {
+        return Some("topp-norm:duplicate id in output".into());
+    }
+    if out.windows(2).any(|w| tkey(w[0].1) < tkey(w[1].1)) {
+        return Some("topp-norm:output probabilities not sorted descending".into());
+    }
+    // kept candidates are the highest logits
+    let min_kept = out.iter().map(|x| logit_of[&x.0]).fold(f64::INFINITY, f64::min);
+    let kept: std::collections::HashSet<u32> = ids.iter().copied().collect();
+    let max_excl = input.iter().filter(|x| !kept.contains(&x.0)).map(|x| val64(x.1)).fold(f64::NEG_INFINITY, f64::max);
+    if max_excl > min_kept {
+        return Some(format!("topp-norm:not-highest an excluded logit {max_excl} exceeds a kept one {min_kept}"));
+    }
+    // count band
+    let mx = input.iter().map(|x| val64(x.1)).fold(f64::NEG_INFINITY, f64::max);
+    let mut probs: Vec<f64> = input.iter().map(|x| (val64(x.1) - mx).exp()).collect();
+    let sum: f64 = probs.iter().sum();
+    for q in probs.iter_mut() {
+        *q /= sum;
+    }
+    probs.sort_by(|a, b| b.partial_cmp(a).unwrap());
+    let thr = val64(pbits).max(f32::MIN_POSITIVE as f64);
+    let eps = 2e-5 * (input.len() as f64 + 4.0);
+    let count = |t: f64| -> usize {
+        let mut c = 0f64;
+        for (i, q) in probs.iter().enumerate() {
+            c += q;
+            if c >= t {
+                return i + 1;
+            }
+        }
+        probs.len()
+    };
+    let lo = count((thr - eps).max(f64::MIN_POSITIVE));
+    let hi = count(thr + eps);
+    if out.len() < lo || out.len() > hi {
+        return Some(format!("topp-norm:not-minimal-prefix kept {} candidates, f64 softmax reference allows {lo}..={hi}", out.len()));
+    }
+    None
+}
+
 fn oracle_step(spec: &Spec, input: &[Item], out: &[Item]) -> Option<String> {
     match spec {
         Spec::TopK(k) => oracle_topk(*k, input, out),
@@ -451,6 +511,25 @@ impl Ctx {
         };
         // inexact finite sums: the Lean model would compute the exact sum, so do not compare
         self.emit(&req, &ans, fail, exact || !finite, xs.len() >= 2);
+    }
+
+    /// `TopP::new(p).normalize(true)` (softmax inside): outside the Lean model, checked against
+    /// an f64 softmax with a tolerance band on the threshold.  `xs` must have distinct ids.
+    fn toppn(&mut self, p: u32, xs: &[Item]) {
+        let m = if is_dense(xs) { "d" } else { "s" };
+        let req = format!("toppn {m} {p} | {}", show_items(xs));
+        let prev = self.prev.clone();
+        let spec = Spec::TopPNorm(p);
+        let res = hcommon::catch(|| from_logits(&spec.apply(to_logits(xs), &prev)));
+        self.classify("toppn(oracle-only)", xs);
+        let (ans, fail) = match res {
+            Ok(o) => (show_items(&o), oracle_toppn(p, xs, &o)),
+            Err(msg) => {
+                self.out.bucket("outcome_panic");
+                ("panic".to_string(), Some(format!("panic: {msg}")))
+            }
+        };
+        self.emit(&req, &ans, fail, false, xs.len() >= 2);
     }
 
     fn sort(&mut self, xs: &[Item]) {
@@ -758,7 +837,7 @@ fn main() {
 fn run(args: &Args) {
     let mut rng = Rng::new(args.seed);
     let mut cx = Ctx { out: Out::new(&args.out), prev: vec![] };
-    let scale = if args.thorough { 12 } else { 1 };
+    let scale = if args.thorough { 40 } else { 3 };
 
     // (0) order primitives: total_cmp and `>` on specials and random patterns
     for &a in &SPECIALS {
@@ -858,6 +937,27 @@ fn run(args: &Args) {
     for _ in 0..2_000 * scale {
         let xs = rand_items(&mut rng);
         cx.sort(&xs);
+    }
+
+    // (5b) softmax-normalised TopP (oracle-only)
+    for _ in 0..4_000 * scale {
+        let n = rand_len(&mut rng).min(40);
+        let mode = *rng.pick(&[0u64, 3, 3, 4]);
+        let dense = rng.chance(1, 2);
+        let mut id = 0u32;
+        let xs: Vec<Item> = (0..n)
+            .map(|i| {
+                id += 1 + rng.below(4) as u32;
+                (if dense { i as u32 } else { id }, rand_bits(&mut rng, mode))
+            })
+            .collect();
+        let p = match rng.below(6) {
+            0 => P0,
+            1 => ONE,
+            2 => 0x3f7f_ffff,
+            _ => rng.f32_unit().to_bits(),
+        };
+        cx.toppn(p, &xs);
     }
 
     // (6) chains: modelled (compared with Lean) and unmodelled (composition oracle only)
